@@ -20,16 +20,30 @@ Theorem C19_recv_error_credits_nothing :
 Proof. exact recv_error_nothing. Qed.
 Print Assumptions C19_recv_error_credits_nothing.
 
-(* success for a token other than the native coin => hex receiver, and among ALL of the receiver's balances exactly
-   one changed: + amount of the pair's ERC-20 *)
+(* success for a token other than the native coin => hex receiver, the coin is either a voucher that is the coin of pair t
+   or the base coin of bridged token t come home out of escrow, and among ALL of the receiver's balances exactly one
+   changed: + amount of that pair's ERC-20 *)
 Theorem C19_recv_hex_credits_exactly_as_erc20 :
   forall isender p s s',
-  recv isender p s = (s', true) -> ip_denom p <> DFx -> 0 <= ip_recv p ->
-  exists t, ip_denom p = DOwn t /\ ip_hex p = true /\ ip_addr_ok p = true /\ 0 < ip_amt p /\
+  recv isender p s = (s', true) -> ip_denom p <> DFx -> 0 <= ip_recv p -> 0 <= ip_dst p ->
+  exists t, (ip_denom p = DOwn t \/ ip_denom p = DBase t) /\ ip_hex p = true /\ ip_addr_ok p = true /\ 0 < ip_amt p /\
     ibal s' (ip_recv p, AErc, t) = ibal s (ip_recv p, AErc, t) + ip_amt p /\
     (forall k a, (k, a) <> (AErc, t) -> ibal s' (ip_recv p, k, a) = ibal s (ip_recv p, k, a)).
 Proof. exact recv_success_erc20. Qed.
 Print Assumptions C19_recv_hex_credits_exactly_as_erc20.
+
+(* the receive-side rule as a table over (denom class, receiver class) — recv_rule_of — and what success means per cell *)
+Theorem C19_recv_rule_table :
+  forall isender p s s',
+  recv isender p s = (s', true) -> 0 <= ip_recv p -> 0 <= ip_dst p ->
+  match recv_rule_of (ip_denom p) (ip_hex p) with
+  | RKeepNative => ibal s' (ip_recv p, AFx, 0) = ibal s (ip_recv p, AFx, 0) + ip_amt p /\
+                   (forall k a, (k, a) <> (AFx, 0) -> ibal s' (ip_recv p, k, a) = ibal s (ip_recv p, k, a))
+  | RPairOfVoucher t | RPairOfBase t => credited_erc20 p s s' t
+  | RRefuse | RNoPair => False
+  end.
+Proof. exact recv_rule_table. Qed.
+Print Assumptions C19_recv_rule_table.
 
 (* reading of "as ERC-20": the native coin arriving over IBC stays the native (EVM) balance — exactly the amount *)
 Theorem C19_recv_native_fx_credits_exactly :
